@@ -81,10 +81,73 @@ def cps_nfc(s):
     return [ord(ch) for ch in s]
 
 
+def wrap_model_replay(V, tier):
+    """Design level: TLC checks the transcription of wrap_line (spec/Wrap.tla) on every text / cut / width /
+    limit in bound; the single-section cases are then rendered by the real binary as an unchanged line of a
+    side-by-side diff and the rows are compared with the model's (drift), besides being judged like all others."""
+    mc = tlc.run_tlc("MC_Wrap", cfg="MC_Wrap", workers=8, coverage=False, timeout=1800, heap="6g",
+                     extra=[]) if tier == "thorough" else tlc.run_tlc("MC_Wrap", cfg="MC_Wrap_quick", workers=8,
+                                                                      coverage=False, timeout=900, heap="6g")
+    tlc.require_ok(mc, "MC_Wrap")
+    if mc.violated:
+        V.drift.append(f"module=Wrap design-level {mc.violated} violated")
+    reg = tlc.run_tlc("MC_Wrap", cfg="MC_Wrap_regression", workers=4, coverage=False, timeout=600)
+    if reg.violated != "Terminates":
+        raise core.ToolError("MC_Wrap_regression (loop without the no-progress stop) did not violate Terminates")
+    # the Replay invariant is only in the emit config
+    em = tlc.run_tlc("MC_Wrap", cfg="MC_Wrap_emit", workers=4, coverage=False, timeout=900, heap="6g")
+    tlc.require_ok(em, "MC_Wrap_emit")
+    cases = [v for t, v in em.printed if t == "REPLAY"]
+    G = {1: "a", 2: "世"}
+
+    def one(c):
+        text = "".join(G[w] for w in c["t"])
+        if not text:
+            return None
+        data = (f"diff --git a/alphaZ1Z.rs b/alphaZ1Z.rs\nindex 1..2 100644\n--- a/alphaZ1Z.rs\n+++ b/alphaZ1Z.rs\n"
+                f"@@ -1,1 +1,1 @@ fragZ1Z\n {text}\n").encode()
+        args = gitskin.rs_args(2 * (c["W"] + 6)) + ["--side-by-side", "--wrap-max-lines",
+                                                    "unlimited" if c["M"] == 0 else str(c["M"] - 1), "--wrap-right-percent", "1"]
+        r = core.run_delta(args, data, timeout=10)
+        rows = []
+        for b in r.out.split(b"\n")[:-1]:
+            p = gitskin.parse_sbs_row(b)
+            if p is not None:
+                t, wrapped, trunc, ra = p["lp"]
+                rows.append(([lexer.gwidth(g) for g in lexer.graphemes(t)], wrapped, trunc))
+        return r, rows
+    res = core.pmap(one, cases)
+    drift = 0
+    for c, x in zip(cases, res):
+        if x is None:
+            continue
+        r, rows = x
+        if r.timed_out or r.code != 0:
+            V.violation(f"no-termination:model-case:{c['t']}:{c['W']}:{c['M']}", f"wrap case text widths {c['t']} at panel width "
+                        f"{c['W']} limit {c['M']}: exit {r.code} timed out={r.timed_out}", {"case": c, "run": r.to_json()})
+            continue
+        want = [[x for x in row if x not in (9, 0)] for row in c["rows"]]
+        wsym = [9 in row for row in c["rows"]]
+        got = [t for t, w, tr in rows]
+        gsym = [w for t, w, tr in rows]
+        n = min(len(want), len(got))
+        ok = len(want) == len(got) and want[:n - 1] == got[:n - 1] and wsym[:n - 1] == gsym[:n - 1]
+        if ok and n and not rows[n - 1][2]:
+            ok = got[n - 1] == want[n - 1]           # (a last row cut by the panel code - truncation mark - is not compared)
+        if not ok:
+            drift += 1
+            if drift <= 3:
+                V.drift.append(f"module=Wrap text {c['t']} W={c['W']} M={c['M']}: model rows {c['rows']} binary {rows}")
+    return {"states": mc.distinct, "replayed": len([x for x in res if x]), "drift": drift, "regression": reg.violated}
+
+
 def run(tier):
     t0 = time.time()
     V = core.Verdict(PID)
     rnd = random.Random(core.seed())
+    wrapinfo = wrap_model_replay(V, tier)
+    log(f"[{PID}] design level (Wrap): {wrapinfo['states']} cases hold Lossless/Fits/Symbols/LockStep/Terminates; "
+        f"{wrapinfo['replayed']} replayed, {wrapinfo['drift']} differ from the model")
     jobs = []
     ncase = 700 if tier == "quick" else 9000
     for i in range(ncase):
@@ -167,8 +230,8 @@ def run(tier):
                     {"W": W, "limit": limit, "extra": extra, "run": r.to_json()})
     rc = V.finish()
     core.write_evidence(PID, tier, "model_checking", {
-        "states": states, "transitions": states,
-        "traces_validated_against_impl": len(events), "evaluations": len(events),
+        "states": states + wrapinfo["states"], "transitions": states + wrapinfo["states"], "wrap_model": wrapinfo,
+        "traces_validated_against_impl": len(events) + wrapinfo["replayed"], "evaluations": len(events),
         "distinct_nontrivial": len(jobs),
         "rule": "seeded sections of 1-2 hunks with up to 6 lines each over an alphabet with double-width, combining and tab characters, "
                 "line lengths 0..90, similar (pairing) and dissimilar lines; widths from the narrowest that fits the gutters (even and "
